@@ -143,3 +143,23 @@ def mutators_of_field(fx, field):
                     if fl and fl[-1]['n'] == field and st['p']['p'][-1] is fl[-1]:
                         out.append((b, 'assign', st.get('span'), st))
     return out
+
+
+def rejecting_guard(body, bb, pred):
+    """a switch dominating bb whose condition satisfies pred(cond, truth_on_the_path_to_bb) and whose other edge returns Err on
+    every path: the construct `if bad(x) { return Err(..) }` (or the `?` of a helper that does that) seen from below"""
+    for cond, vals, a in q.guards(body, bb):
+        truth = q.bool_outcome(body, a, vals)
+        if truth is None or not pred(cond, truth):
+            continue
+        tm = body.blocks[a]['term']
+        taken = set()
+        for v in vals:
+            if v == 'otherwise':
+                taken.add(tm['otherwise'])
+            else:
+                taken |= {s for vv, s in tm['targets'] if vv == v}
+        others = [s for s in body.cfg.succ[a] if s not in taken]
+        if others and all(q.arm_always_err(body, s) for s in others):
+            return True
+    return False
